@@ -398,8 +398,8 @@ class Ctx:
     # -- finish ----------------------------------------------------------
     def finish(self) -> int:
         pid = self.pid
-        REPLAYS.mkdir(exist_ok=True)
-        EVIDENCE.mkdir(exist_ok=True)
+        REPLAYS.mkdir(parents=True, exist_ok=True)
+        EVIDENCE.mkdir(parents=True, exist_ok=True)
         proof = self.proof or {"ok": False, "broken": "proof stage not run", "obligations": 0, "discharged": 0, "theorems": [], "axioms": []}
         sc = extraction_selfcheck(self.selfcheck_pairs, self.rng) if self.selfcheck_pairs else {"ok": True, "n": 0}
         lines = []
